@@ -44,7 +44,7 @@ CLAIMED = {
             'Trusted: mirsym + environment models; expectations coded in harness/src/h_content.rs from the Recommendation. Outside: ECMAScript model, deeper nestings. Five defects repaired (99b1914, e7a4a83, 883c814, 0e379e1, c038114).',
             'DESIGN.md §4 C08'),
     'C10': ('model_checking', 'symbolic execution of rustc MIR (mirsym) + z3 over arbitrary i64 operands through the real lexer/parser/evaluator; Kani/CBMC for the f64 operator kernel (thorough)',
-            'Bounded symbolic model checking: Integer operators equal saturating arithmetic for all i64 pairs; every expression "a op1 b op2 c" (and three-operator chains) over {+,-,*,%} parsed and evaluated by the real code equals the precedence/left-associativity oracle for all operand values (z3 equalities over 64-bit vectors); cache vs fresh compilation agree for all values; assignment semantics; a 28-item catalogue fixes mixed-type, comparison, logic, aggregation, member/index and spelling cases. Thorough: Kani decides Double contagion of + and - and the mixed '<' comparison, without panic, for any f64 x any i64 (multiplication, division and remainder of arbitrary doubles did not finish in CBMC within 25 minutes and are covered on concrete doubles by engine M only).',
+            'Bounded symbolic model checking: Integer operators equal saturating arithmetic for all i64 pairs; every expression "a op1 b op2 c" (and three-operator chains) over {+,-,*,%} parsed and evaluated by the real code equals the precedence/left-associativity oracle for all operand values (z3 equalities over 64-bit vectors); cache vs fresh compilation agree for all values; assignment semantics; a 28-item catalogue fixes mixed-type, comparison, logic, aggregation, member/index and spelling cases. Thorough: Kani decides Double contagion of + and - and the mixed less-than comparison, without panic, for any f64 x any i64 (multiplication, division and remainder of arbitrary doubles did not finish in CBMC within 25 minutes and are covered on concrete doubles by engine M only).',
             'Trusted: mirsym + environment models, the oracle table in harness/src/h_expr.rs. Two repaired defects (right-to-left grouping, d1ab216; Integer comparisons through f64, 0ef8045); one known finding (minus directly before a digit).',
             'DESIGN.md §4 C10'),
     'C11': ('model_checking', 'symbolic execution of rustc MIR (mirsym) + z3: panic / self-deadlock / non-termination reachability with symbolic characters and aliasing operands',
